@@ -19,7 +19,7 @@ import (
 // honest gmtls endpoints.
 
 var authItems = []string{
-	"S0-honest-server", "S1-untrusted-ca", "S2-expired", "S2-not-yet-valid", "S2-client-clock-before", "S2-client-clock-after", "S2-one-expired", "S3-wrong-name", "S3-one-wrong-name",
+	"S0-honest-server", "S1-untrusted-ca", "S2-expired", "S2-not-yet-valid", "S2-client-clock-before", "S2-client-clock-after", "S2-one-expired", "S3-wrong-name", "S3-one-wrong-name", "S3-ip-literal-server-name",
 	"S4-rsa-sign-cert", "S4-p256-sign-cert", "S4-rsa-enc-cert", "S5-skx-other-key", "S6-skx-replayed-randoms", "S7-skx-other-enc-cert", "S8-skx-omitted", "S9-skx-malformed",
 	"S10-no-enc-key", "S11-certs-swapped", "S12-one-cert",
 	"C0-honest-client", "C1-no-cert", "C2-untrusted-ca", "C3-cv-other-key", "C4-cv-other-transcript", "C5-cv-omitted", "C6-selfsigned-allowed", "C7-selfsigned-cv-other-key", "C8-ifgiven-no-cert", "C9-expired", "C9-server-clock-after",
@@ -41,17 +41,18 @@ func ident(name string, withKey bool) *reftls.Identity {
 }
 
 type impRun struct {
-	Item      string
-	Expect    int // expFail / expComplete for the victim
-	Suite     uint16
-	VictimSrv bool // victim is the gmtls server (client impostor)
-	Policy    gmtls.ClientAuthType
-	Skew      int64 // victim clock skew (ns)
-	scfg      *reftls.ServerCfg
-	ccfg      *reftls.ClientCfg
-	SrvCert   [2]string // victim client: which fixture the honest comparison uses (for messages)
-	NeedS1    bool      // needs an honest first session to harvest material
-	WantPeer  string    // for allowed client certs: expected PeerCertificates[0]
+	Item       string
+	Expect     int // expFail / expComplete for the victim
+	Suite      uint16
+	VictimSrv  bool // victim is the gmtls server (client impostor)
+	Policy     gmtls.ClientAuthType
+	Skew       int64 // victim clock skew (ns)
+	scfg       *reftls.ServerCfg
+	ccfg       *reftls.ClientCfg
+	SrvCert    [2]string // victim client: which fixture the honest comparison uses (for messages)
+	NeedS1     bool      // needs an honest first session to harvest material
+	WantPeer   string    // for allowed client certs: expected PeerCertificates[0]
+	VictimName string    // ServerName of the victim client (default server.sim)
 }
 
 const day = int64(24 * 3600 * 1e9)
@@ -64,7 +65,7 @@ func drawImpostor(c *simkit.Choice, ent *simkit.Stream) impRun {
 	if !ir.VictimSrv {
 		sc := &reftls.ServerCfg{Rand: ent, Suites: []uint16{ir.Suite}, Sign: ident("srv-sign", true), Enc: ident("srv-enc", true)}
 		ir.scfg = sc
-		items := []string{"S0-honest-server", "S1-untrusted-ca", "S2-expired", "S2-not-yet-valid", "S2-client-clock-before", "S2-client-clock-after", "S2-one-expired", "S3-wrong-name", "S3-one-wrong-name",
+		items := []string{"S0-honest-server", "S1-untrusted-ca", "S2-expired", "S2-not-yet-valid", "S2-client-clock-before", "S2-client-clock-after", "S2-one-expired", "S3-wrong-name", "S3-one-wrong-name", "S3-ip-literal-server-name",
 			"S4-rsa-sign-cert", "S4-p256-sign-cert", "S4-rsa-enc-cert", "S5-skx-other-key", "S6-skx-replayed-randoms", "S7-skx-other-enc-cert", "S8-skx-omitted", "S9-skx-malformed", "S10-no-enc-key", "S11-certs-swapped", "S12-one-cert"}
 		ir.Item = items[c.Choose(len(items), simkit.LFault)]
 		switch ir.Item {
@@ -96,6 +97,9 @@ func drawImpostor(c *simkit.Choice, ent *simkit.Stream) impRun {
 			} else {
 				sc.Enc = ident("srvother-enc", true)
 			}
+		case "S3-ip-literal-server-name":
+			// the client asked for an IP address; the (trusted, valid) certificates are for a DNS name only
+			ir.VictimName = []string{"192.0.2.7", "127.0.0.1", "2001:db8::1"}[c.Choose(3, simkit.LFault)]
 		case "S4-rsa-sign-cert":
 			sc.CertList = [][]byte{pki.DER("srvrsa"), pki.DER("srv-enc")}
 		case "S4-p256-sign-cert":
@@ -226,7 +230,11 @@ func runAuthImpostor(c *simkit.Choice, r *simkit.Rec) {
 			if ir.VictimSrv {
 				conn = gmtls.Server(vRaw, victimServerCfg(s, ir.Suite, entV, skew, policy))
 			} else {
-				conn = gmtls.Client(vRaw, victimClientCfg(s, ir.Suite, entV, skew))
+				vc := victimClientCfg(s, ir.Suite, entV, skew)
+				if ir.VictimName != "" && tag == "2" {
+					vc.ServerName = ir.VictimName
+				}
+				conn = gmtls.Client(vRaw, vc)
 			}
 			out.victim.HsErr = conn.Handshake()
 			collectState(conn, &out.victim)
